@@ -187,7 +187,11 @@ func genPackage(r *core.RNG) Input {
 		allowEmbeds := token.IsExported(t.Name) && !t.Disabled
 		for k := 0; k < nf; k++ {
 			var f Field
-			if allowEmbeds && r.Chance(35) {
+			if r.Chance(4) && !used["Mutex"] && !used["Range16"] {
+				// an embedded type of another package
+				f = Field{Embedded: true, Ptr: r.Chance(30), Foreign: core.Pick(r, []string{"sync.Mutex", "unicode.Range16"})}
+				f.Name = strings.SplitN(f.Foreign, ".", 2)[1]
+			} else if allowEmbeds && r.Chance(35) {
 				// an embedded field
 				j := r.Intn(n)
 				tt := &in.Types[j]
@@ -256,6 +260,12 @@ func genPackage(r *core.RNG) Input {
 		}
 	}
 	in.Grouped = r.Chance(12)
+	if r.Chance(8) {
+		in.NoPkgTag = true
+		// untagged package: make sure some type switches the generator on for itself
+		t := &in.Types[r.Intn(n)]
+		t.Doc = append(t.Doc, DocLine{Text: core.Pick(r, []string{"+gengo:runtimedoc", "+gengo:runtimedoc:x=1", "+gengo:runtimedoc=true"}), Tag: true})
+	}
 	sanitize(&in)
 	return in
 }
@@ -266,7 +276,7 @@ func (in *Input) hasRD(tn string, depth int) bool {
 	if t == nil || depth > 8 {
 		return false
 	}
-	if covered(t) {
+	if in.covered(t) {
 		return true
 	}
 	for _, f := range t.Fields {
@@ -280,11 +290,12 @@ func (in *Input) hasRD(tn string, depth int) bool {
 // sanitize keeps the package inside the modelled domain: a type WITHOUT a generated method must not
 // get one by Go's method promotion (the model's "method set" is the set of generated methods).
 func sanitize(in *Input) {
+	defer normalize(in)
 	for changed := true; changed; {
 		changed = false
 		for i := range in.Types {
 			t := &in.Types[i]
-			if t.Kind != "struct" || covered(t) {
+			if t.Kind != "struct" || in.covered(t) {
 				continue
 			}
 			var keep []Field
@@ -367,9 +378,9 @@ func fixedCases() []Input {
 }
 
 func (prop) Generate(r *core.RNG, tier string) []json.RawMessage {
-	n := 8
+	n := 24
 	if tier == "thorough" {
-		n = 160
+		n = 400
 	}
 	var out []json.RawMessage
 	add := func(in Input) {
@@ -384,6 +395,11 @@ func (prop) Generate(r *core.RNG, tier string) []json.RawMessage {
 		add(in)
 		if in.hasClassReceiver() && (tier == "thorough" || i%3 == 0) {
 			in.KnownOnly = true
+			add(in)
+			in.KnownOnly = false
+		}
+		if i%12 == 5 { // malformed stream: the same package with a syntax error
+			in.Broken = true
 			add(in)
 		}
 	}
